@@ -242,44 +242,55 @@ def expected (p : FP) (matchAny : Bool) (utag : Nat) : Nat × Nat × Bool :=
   let r := if !p.explicit && p.application && p.tag.isSome then (1, p.tag.getD 0, false) else r
   if !p.explicit && p.priv && p.tag.isSome then (3, p.tag.getD 0, false) else r
 
+/-- `setDefaultValue` failed or succeeded after a tag mismatch -/
+def headerMiss (p : FP) : Except Err Hdr := if p.optional then .ok .absent else .error .structural
+
+/-- `universalTag` after the string / time / `set` adjustments of `parseField` -/
+def utagOf (t : ATy) (p : FP) (tl : TL) : Nat :=
+  let utag0 := (universalType t).2.1
+  let utag1 :=
+    if utag0 = tagPrintableString then
+      if tl.cls = 0 then (if isOtherStringTag tl.tag then tl.tag else utag0)
+      else if p.stringType ≠ 0 then p.stringType else utag0
+    else utag0
+  let utag1 := if utag1 = tagUTCTime ∧ tl.tag = tagGeneralizedTime ∧ tl.cls = 0 then tagGeneralizedTime else utag1
+  if p.set then tagSet else utag1
+
+/-- "tags don't match" -/
+def tagMismatch (t : ATy) (p : FP) (tl : TL) : Bool :=
+  let (matchAny, _, compoundType) := universalType t
+  let (expCls, expTag, matchAnyCT) := expected p matchAny (utagOf t p tl)
+  (!matchAnyCT && (tl.cls != expCls || tl.tag != expTag)) || (!matchAny && tl.compound != compoundType)
+
+/-- second half of `header`: `tl` is the header of the element itself (explicit wrapper, if any, already
+unwrapped), `r2` what follows that header -/
+def headerBody (t : ATy) (p : FP) (bs : Bytes) (tl : TL) (r2 : Bytes) (outer : Option (Nat × Nat)) : Except Err Hdr :=
+  if tagMismatch t p tl then headerMiss p
+  else if tl.len > r2.length then .error .syntax
+  else .ok (.body tl (utagOf t p tl) (r2.take tl.len) (r2.drop tl.len) (bs.take (bs.length - (r2.drop tl.len).length)) outer)
+
 /-- `parseField` from `parseTagAndLength` down to `innerBytes := bytes[offset : offset+t.length]`
 (`bs ≠ []`). The decoding mode plays no part here, only the dialect of `parseBase128Int`. -/
 def header (d : Dialect) (t : ATy) (p : FP) (bs : Bytes) : Except Err Hdr :=
   match parseTagLen d bs with
   | .error e => .error e
   | .ok (tl0, r1) =>
-    let miss : Except Err Hdr := if p.optional then .ok .absent else .error .structural
-    let continue_ (tl : TL) (r2 : Bytes) (outer : Option (Nat × Nat)) : Except Err Hdr :=
-      let (matchAny, utag0, compoundType) := universalType t
-      let utag1 :=
-        if utag0 = tagPrintableString then
-          if tl.cls = 0 then (if isOtherStringTag tl.tag then tl.tag else utag0)
-          else if p.stringType ≠ 0 then p.stringType else utag0
-        else utag0
-      let utag1 := if utag1 = tagUTCTime ∧ tl.tag = tagGeneralizedTime ∧ tl.cls = 0 then tagGeneralizedTime else utag1
-      let utag := if p.set then tagSet else utag1
-      let (expCls, expTag, matchAnyCT) := expected p matchAny utag
-      if (!matchAnyCT && (tl.cls != expCls || tl.tag != expTag)) || (!matchAny && tl.compound != compoundType) then miss
-      else if tl.len > r2.length then .error .syntax
-      else
-        let rest := r2.drop tl.len
-        .ok (.body tl utag (r2.take tl.len) rest (bs.take (bs.length - rest.length)) outer)
     if p.explicit then
       if r1 = [] then .error .structural
       else if tl0.cls = (if p.application then 1 else 2) ∧ tl0.tag = p.tag.getD 0 ∧ (tl0.len = 0 ∨ tl0.compound) then
         match t with
-        | .rawValue => continue_ tl0 r1 none
+        | .rawValue => headerBody t p bs tl0 r1 none
         | _ =>
           if tl0.len > 0 then
             match parseTagLen d r1 with
             | .error e => .error e
-            | .ok (tl, r2) => continue_ tl r2 (some (tl0.len, r1.length))
+            | .ok (tl, r2) => headerBody t p bs tl r2 (some (tl0.len, r1.length))
           else
             match t with
             | .flag => .ok (.flagSet r1)
             | _ => .error .structural
-      else miss
-    else continue_ tl0 r1 none
+      else headerMiss p
+    else headerBody t p bs tl0 r1 none
 
 /-- the counting pass of `parseSequenceOf` -/
 def countElems (d : Dialect) (u : Bool × Nat × Bool) : Nat → Bytes → Except Err Nat
@@ -393,19 +404,25 @@ def parseAny (d : Dialect) (lax : Bool) (bs : Bytes) : Except Err (AVal × Bytes
       | .error e => .error e
       | .ok v => .ok (.any v, r.drop tl.len)
 
+def ATy.isAny : ATy → Bool
+  | .any => true
+  | _ => false
+
+/-- the optional element is not there: `setDefaultValue` succeeded, offset unchanged -/
+def absentResult (m : Mode) (t : ATy) (p : FP) (rest : Bytes) : Except Err (AVal × Bytes) :=
+  if m.isCanon && !omitted t p (.absent (defaultVal t p)) then .error .other
+  else .ok (.absent (defaultVal t p), rest)
+
 /-- everything of `parseField` around the type-specific decoding `k` -/
 def fieldShell (d : Dialect) (m : Mode) (t : ATy) (p : FP) (bs : Bytes)
     (k : TL → Nat → Bytes → Bytes → Except Err AVal) : Except Err (AVal × Bytes) :=
-  let absent (rest : Bytes) : Except Err (AVal × Bytes) :=
-    if m.isCanon && !omitted t p (.absent (defaultVal t p)) then .error .other
-    else .ok (.absent (defaultVal t p), rest)
-  if bs = [] then (if p.optional then absent [] else .error .syntax)
-  else if (match t with | .any => true | _ => false) then
+  if bs = [] then (if p.optional then absentResult m t p [] else .error .syntax)
+  else if t.isAny then
     (if m.isCanon then .error .other else parseAny d m.isLax bs)
   else
     match header (d.forMode m) t p bs with
     | .error e => .error e
-    | .ok .absent => absent bs
+    | .ok .absent => absentResult m t p bs
     | .ok (.flagSet rest) => if m.isCanon then .error .other else .ok (.flag true, rest)
     | .ok (.body tl utag inner rest consumed outer) =>
       if m.isCanon && !(canonParams t p && canonOuter tl (inner.length + rest.length) outer) then .error .other
@@ -413,7 +430,6 @@ def fieldShell (d : Dialect) (m : Mode) (t : ATy) (p : FP) (bs : Bytes)
         match k tl utag inner consumed with
         | .error e => .error e
         | .ok v => if m.isCanon && omitted t p v then .error .other else .ok (v, rest)
-
 
 mutual
 /-- asn1.go `parseField` on the remaining input `bs`; returns the value and the new remainder. -/
@@ -428,7 +444,7 @@ def parseField (d : Dialect) (m : Mode) : ATy → FP → Bytes → Except Err (A
   | .seqOf s e, p, bs =>
     fieldShell d m (.seqOf s e) p bs fun _ _ inner _ =>
       if m.isCanon && d.sortSetOf && (p.set || s) then .error .other
-      else if (match e with | .any => true | _ => false) then .error .structural
+      else if e.isAny then .error .structural
       else
       match countElems (d.forMode m) (universalType e) (inner.length + 1) inner with
       | .error err => .error err
